@@ -58,6 +58,12 @@ CHECKS.update({
             'submitting at every possible point of the radio loop (lock-step), random longer histories beyond; exactly-once/in-order in both '
             'directions, link-error count and safelink negotiation are checked against a reference peer.',
             'Safelink peer model and dongle status-byte format restated from the firmware protocol; application acts only while the radio thread is parked.'),
+    'C06': ('exploration', 'DESIGN.md 3/C06', 'dsched+simcf',
+            'Hypothesis operation histories + reply-fault policies + generated thread schedules under a deterministic virtual-time scheduler against a simulated device; enumerated link-drop sweep; dict-backed memory image model',
+            'A real Crazyflie runs against a simulated firmware peer with every thread interleaving decided by a generated schedule and all '
+            'timers in virtual time; histories of reads/queued writes with duplicated/delayed/error replies and link drops after every k-th '
+            'packet (enumerated for fixed histories) are compared with a memory image model, exactly-one notification bookkeeping and a probe.',
+            'Device model and network policy are mine; interleavings are explored at synchronisation-operation granularity; bounded virtual horizon.'),
 })
 
 ALL = ['C%02d' % i for i in range(1, 21)]
@@ -97,6 +103,14 @@ def main():
             'add_only': True,
         },
         'engines': [
+            {'name': 'dsched', 'path': 'vlib/dsched.py', 'serves_properties': ['C02', 'C03', 'C04', 'C05', 'C06', 'C10', 'C11', 'C17', 'C19'],
+             'kind_free_text': 'deterministic scheduler with virtual time: logical threads on real threads, one baton, schedule is a generated value'},
+            {'name': 'simcf', 'path': 'vlib/simcf.py', 'serves_properties': ['C02', 'C03', 'C04', 'C05', 'C06', 'C10', 'C11'],
+             'kind_free_text': 'simulated Crazyflie firmware peer (CRTP services) + SimLink driver with network/fault policy'},
+            {'name': 'fakeradio', 'path': 'vlib/fakeradio.py', 'serves_properties': ['C01', 'C20'],
+             'kind_free_text': 'fake Crazyradio USB dongle (pyusb shaped), lock-step control, safelink peer model'},
+            {'name': 'memdev', 'path': 'vlib/memdev.py', 'serves_properties': ['C06', 'C14'],
+             'kind_free_text': 'memory-port device model and pumped thread-free Crazyflie stand-in'},
             {'name': 'runner', 'path': 'vlib/runner.py', 'serves_properties': sorted(claimed),
              'kind_free_text': 'Hypothesis driver / exhaustive enumerator, root-cause bucketing, shrinking budget, replay + evidence writer'},
         ],
